@@ -27,7 +27,7 @@ META = {
     "arbitrary map/condition/combiner functions, arbitrary target counts and (Collector, crossbar) arbitrary "
     "scheduling orders and histories; lock-step correspondence of the models with the real components in pysim",
     "level_text": "per-cycle theorems (c18_connect, c18_crossbar_*, c18_map, c18_filter_*, c18_product, "
-    "c18_tryproduct, c18_nonex) hold for every readiness pattern, every argument and every function parameter; "
+    "c18_tryproduct, c18_nonex; c18_filter_usecond at full strength after the repair of F-b6-1) hold for every readiness pattern, every argument and every function parameter; "
     "c18_collector_once is a history invariant (delivered ++ buffered = results of executed target calls) for every "
     "target count, scheduling order and call history. The models are tied to the code by cycle-exact comparison of "
     "executed calls, arguments seen by every target and results, enumerating all readiness patterns of up to 4 "
@@ -665,11 +665,11 @@ def gen_cases(ctx: Check, rng, thorough: bool) -> list[Case]:
             d = {"w": w, "ifun": _rand_un(rng, w), "ofun": _rand_un(rng, w)}
             ex = w <= 3 and r == 0
             cases.append(_case("map", d, _u_ops(rng, w, 120, ex), "exhaustive" if ex else "random"))
-    # --- MethodFilter, both modes (1-bit conditions in use_condition mode, see `gen_multibit_cases`)
+    # --- MethodFilter, both modes, one-bit and multi-bit condition values
     for uc in (0, 1):
         for w in widths:
             for r in range(reps):
-                d = {"w": w, "cond": _rand_cond(rng, w, multibit=not uc), "def": rng.randrange(1 << w), "uc": uc}
+                d = {"w": w, "cond": _rand_cond(rng, w, multibit=True), "def": rng.randrange(1 << w), "uc": uc}
                 ex = w <= 3 and r == 0
                 cases.append(_case("filter", d, _u_ops(rng, w, 120, ex), "exhaustive" if ex else "random"))
     # --- MethodProduct / MethodTryProduct: every readiness pattern of <= nmax targets
@@ -740,13 +740,13 @@ def gen_cases(ctx: Check, rng, thorough: bool) -> list[Case]:
     return cases
 
 
-def gen_multibit_cases(rng) -> list[Case]:
-    """MethodFilter(use_condition=True) with a condition value wider than one bit: outside the region where the
-    documented behaviour holds (proposed finding); only model/implementation agreement is checked here."""
+def gen_regression_cases(rng) -> list[Case]:
+    """MethodFilter(use_condition=True) with a condition value wider than one bit: the region of the repaired
+    defect F-b6-1 (the condition used to be truncated to its LSB); ordinary monitored cases now."""
     cases = []
     for w in (2, 3, 4):
-        d = {"w": w, "cond": f"and:{rng.randrange(2, 1 << w)}", "def": rng.randrange(1 << w), "uc": 1, "multibit": 1}
-        cases.append(_case("filter", d, _u_ops(rng, w, 80, w <= 3), "witness"))
+        d = {"w": w, "cond": f"and:{rng.randrange(1, 1 << (w - 1)) * 2}", "def": rng.randrange(1 << w), "uc": 1}
+        cases.append(_case("filter", d, _u_ops(rng, w, 80, w <= 3), "directed"))
     return cases
 
 
@@ -802,31 +802,36 @@ def run(ctx: Check):
     ctx.proof_stage()
     ctx.replay_findings(replay_witness)
     rng = ctx.rng("gen")
-    cases = gen_cases(ctx, rng, ctx.thorough)
+    cases = gen_cases(ctx, rng, ctx.thorough) + gen_regression_cases(ctx.rng("mb"))
     for c in cases:
         ctx.count(f"component_{c.desc['component']}")
     procs = 1 if ctx.quick else 8
     lockstep(ctx, "transformers", "C18", cases, impl, monitor, more_cases, nontrivial, procs=procs)
-    # outside the documented region (multi-bit condition value in use_condition mode): agreement only
-    # (once the proposed finding is listed in known_findings.txt with a `match` on these descriptors, the monitor is
-    # switched on and its failures are counted as covered by the finding)
-    mb = gen_multibit_cases(ctx.rng("mb"))
-    mb_monitor = monitor if ctx.is_known(mb[0].desc) else None
-    lockstep(ctx, "transformers-filter-multibit", "C18", mb, impl, mb_monitor, None, None, procs=1)
     ctx.exhaustive = False
-    ctx.note(
-        "MethodFilter(use_condition=True) keeps only the least significant bit of the condition value "
-        "(transformers.py:248-249); cases with a wider condition value are compared with the model but not monitored"
-    )
+
+
+def desc_of_cfg(cfg: str) -> dict:
+    """Descriptor of a configuration line (for witnesses / replays that carry only `cfg` and `ops`)."""
+    d: dict = {}
+    for k, v in _kv(cfg).items():
+        if k == "comp":
+            d["component"] = v
+        elif k == "order":
+            d[k] = _ilist(v)
+        else:
+            d[k] = int(v) if v.lstrip("-").isdigit() else v
+    return d
 
 
 def replay_witness(w: dict) -> Optional[str]:
     """Replay the witness of a (proposed/known) finding on the implementation; returns the failure or None."""
-    case = Case(w["cfg"], list(w["ops"]), w["desc"], "witness")
+    case = Case(w["cfg"], list(w["ops"]), w.get("desc") or desc_of_cfg(w["cfg"]), "witness")
     return monitor(case, impl(case))
 
 
 def replay(ctx: Check, body: dict):
     from ..lockstep import replay_case
 
+    if "cfg" in body and not body.get("desc"):
+        body = dict(body, desc=desc_of_cfg(body["cfg"]))
     return replay_case(body, impl, monitor)
